@@ -239,3 +239,131 @@ Theorem C09_example :
   ZbddOK ex_z4 /\ grows ex_z3 ex_z4.
 Proof. exact c09_example_thm. Qed.
 Print Assumptions C09_example.
+
+(** ** ALL histories, ZBDD kind (HISTz, Mgr/HistoryZ.v): the family of an untouched handle is unchanged by
+    EVERY call - operations, gc, reordering, and add_vars: the family of sets of variables is stable, the
+    Boolean view of the handle gains "every new variable false" *)
+From Coq Require Import Bool List NArith PArith FMapPositive.
+From OxiVerif Require Import DD.Sem DD.Build DD.Apply DD.ConfigApply DD.FamSpec DD.ZbddOps DD.ZbddOpsProofs DD.ZbddBool
+  DD.ZbddBoolProofs DD.ZbddEvalProofs Mgr.LevelSwapZ Mgr.LevelSwapZProofs Mgr.HistoryExamples
+  Mgr.HistoryZ Mgr.HistoryZBase Mgr.HistoryZFam Mgr.HistoryZProofs Mgr.HistoryZThms Mgr.HistoryZSpec Mgr.HistoryZTie
+  Mgr.HistoryZExamples.
+
+(* the family of sets of variables of an edge ([vmem]: the set [a] of variables, false outside the manager's variables, is a member) in terms of the level lists of C09 *)
+Theorem C09_histz_vmem_fam :
+  forall (s : snap) (r : ref) (F : fam) (a : asg),
+  ZbddOK s -> ref_ok s r -> fam_of s r = Some F -> vmem s r a <-> supp (nlevels s) a /\ In (set_levels s a) F.
+Proof. exact vmem_fam. Qed.
+Print Assumptions C09_histz_vmem_fam.
+
+(* the Boolean view over the variables is the membership test of the set of true variables *)
+Theorem C09_histz_bool_view :
+  forall (s : snap) (r : ref) (F : fam) (a : asg),
+  ZbddOK s -> ref_ok s r -> fam_of s r = Some F -> zbfun_of s r a = fmem (set_levels s a) F.
+Proof. exact zbfun_fam. Qed.
+Print Assumptions C09_histz_bool_view.
+
+(* one call of any kind, add_vars included *)
+Theorem C09_histz_frame_family :
+  forall (C : Type) (st : hstate_z C) (o : zhop) (st' : hstate_z C),
+  hframe_z C st o st' -> forall r : ref, zroot C st r -> forall a : asg, vmem (hz_s C st') r a <-> vmem (hz_s C st) r a.
+Proof. exact hframe_z_family. Qed.
+Print Assumptions C09_histz_frame_family.
+
+(* along ANY history: the untouched slot keeps its edge and its family, read in the respective orders *)
+Theorem C09_histz_family_fixed :
+  forall (gt : ref -> ref -> bool) (C : Type) (cget : C -> N -> list ref -> list nat -> option ref)
+  (cadd : C -> N -> list ref -> list nat -> ref -> C),
+  zlossy C cget cadd ->
+  forall cempty : C,
+  (forall (k : N) (a : list ref) (m : list nat), cget cempty k a m = None) ->
+  forall cav : C -> C,
+  cav_ok C cget cav ->
+  forall (ops : list zhop) (st st' : hstate_z C),
+  HInvZ C cget st ->
+  zhops_pre gt C cget cadd cempty cav st ops ->
+  hrun_z gt C cget cadd cempty cav st ops = Some st' ->
+  forall (x : N) (e : edge),
+  (forall o : zhop, In o ops -> zhdst o <> Some x) ->
+  hget (s_handles (hz_s C st)) x = Some e ->
+  hget (s_handles (hz_s C st')) x = Some e /\
+  (exists F F' : fam,
+  fam_of (hz_s C st) (eref e) = Some F /\
+  fam_of (hz_s C st') (eref e) = Some F' /\
+  (forall a : asg,
+  supp (nlevels (hz_s C st')) a ->
+  In (set_levels (hz_s C st') a) F' <-> supp (nlevels (hz_s C st)) a /\ In (set_levels (hz_s C st) a) F)).
+Proof. exact histz_family_fixed. Qed.
+Print Assumptions C09_histz_family_fixed.
+
+(* ... and its Boolean view is the old one and "all variables added since are false" *)
+Theorem C09_histz_slot_stable :
+  forall (gt : ref -> ref -> bool) (C : Type) (cget : C -> N -> list ref -> list nat -> option ref)
+  (cadd : C -> N -> list ref -> list nat -> ref -> C),
+  zlossy C cget cadd ->
+  forall cempty : C,
+  (forall (k : N) (a : list ref) (m : list nat), cget cempty k a m = None) ->
+  forall cav : C -> C,
+  cav_ok C cget cav ->
+  forall (ops : list zhop) (st st' : hstate_z C),
+  HInvZ C cget st ->
+  zhops_pre gt C cget cadd cempty cav st ops ->
+  hrun_z gt C cget cadd cempty cav st ops = Some st' ->
+  forall (x : N) (e : edge),
+  (forall o : zhop, In o ops -> zhdst o <> Some x) ->
+  hget (s_handles (hz_s C st)) x = Some e ->
+  hget (s_handles (hz_s C st')) x = Some e /\
+  ref_ok (hz_s C st') (eref e) /\
+  nlevels (hz_s C st) <= nlevels (hz_s C st') /\
+  (forall a : asg, vmem (hz_s C st') (eref e) a <-> vmem (hz_s C st) (eref e) a) /\
+  (forall a : asg,
+  zbfun_of (hz_s C st') (eref e) a =
+  zbfun_of (hz_s C st) (eref e) a && newfalse (nlevels (hz_s C st)) (nlevels (hz_s C st')) a).
+Proof. exact histz_slot_stable. Qed.
+Print Assumptions C09_histz_slot_stable.
+
+(* add_vars: every node, every family (the same level lists) kept; Boolean view = old view and new variables false; the chain is complete *)
+Theorem C09_histz_add_vars :
+  forall (gt : ref -> ref -> bool) (C : Type) (cget : C -> N -> list ref -> list nat -> option ref)
+  (cadd : C -> N -> list ref -> list nat -> ref -> C),
+  zlossy C cget cadd ->
+  forall cempty : C,
+  (forall (k : N) (a : list ref) (m : list nat), cget cempty k a m = None) ->
+  forall cav : C -> C,
+  cav_ok C cget cav ->
+  forall (st : hstate_z C) (k : nat) (st' : hstate_z C),
+  HInvZ C cget st ->
+  hstep_z gt C cget cadd cempty cav st (ZHAddVars k) = Some st' ->
+  HInvZ C cget st' /\
+  nlevels (hz_s C st') = nlevels (hz_s C st) + k /\
+  s_handles (hz_s C st') = s_handles (hz_s C st) /\
+  (forall (id : positive) (nd : node), find_node (hz_s C st) id = Some nd -> find_node (hz_s C st') id = Some nd) /\
+  (forall v : nat, v < nlevels (hz_s C st) -> nth_error (s_v2l (hz_s C st')) v = nth_error (s_v2l (hz_s C st)) v) /\
+  (forall i : nat, i < k -> nth_error (s_v2l (hz_s C st')) (nlevels (hz_s C st) + i) = Some (nlevels (hz_s C st) + i)) /\
+  (forall r : ref,
+  ref_ok (hz_s C st) r ->
+  ref_ok (hz_s C st') r /\
+  fam_of (hz_s C st') r = fam_of (hz_s C st) r /\
+  (forall a : asg, vmem (hz_s C st') r a <-> vmem (hz_s C st) r a) /\
+  (forall a : asg,
+  zbfun_of (hz_s C st') r a = zbfun_of (hz_s C st) r a && newfalse (nlevels (hz_s C st)) (nlevels (hz_s C st')) a)).
+Proof. exact histz_add_vars. Qed.
+Print Assumptions C09_histz_add_vars.
+
+(* the set-family operations after any history, as functions of the variables ([zop_s], [zsub_s], [singleton_s], [base_s], [mknode_s]) *)
+Theorem C09_histz_set_ops_spec :
+  forall (gt : ref -> ref -> bool) (C : Type) (cget : C -> N -> list ref -> list nat -> option ref)
+  (cadd : C -> N -> list ref -> list nat -> ref -> C),
+  zlossy C cget cadd ->
+  forall cempty : C,
+  (forall (k : N) (a : list ref) (m : list nat), cget cempty k a m = None) ->
+  forall cav : C -> C,
+  cav_ok C cget cav ->
+  forall (st : hstate_z C) (o : zhop) (d : N) (F : bfun),
+  HInvZ C cget st ->
+  hspec_z C st o d F ->
+  exists st' : hstate_z C,
+  hstep_z gt C cget cadd cempty cav st o = Some st' /\ HInvZ C cget st' /\ hframe_z C st o st' /\ zholds C st' d F.
+Proof. exact hstep_z_spec. Qed.
+Print Assumptions C09_histz_set_ops_spec.
+
